@@ -2,7 +2,7 @@
    history through the real watchers + converter and recorded, after every reconciliation,
    the hosts (paths with the servers they reach, certificate) of the haproxy model. *)
 From Coq Require Export List String ZArith NArith Bool.
-From HI Require Export Model.Tracker Model.Conv Model.ConvDB.
+From HI Require Export Model.Tracker Model.Conv Model.ConvDB Model.ConvAnn.
 Export ListNotations.
 Open Scope string_scope.
 
@@ -112,13 +112,75 @@ Fixpoint run_dsteps (x : st) (l : list (dstep * list (string * hobs))) : bool :=
 
 Definition dcase_ok (c : dcase) : bool := run_dsteps (empty_state, []) (dsteps c).
 
-Inductive acase := CH (c : ccase) | CT (c : tcase) | CD (c : dcase).
+(* ---- histories with annotations, against Model/ConvAnn.v: the observation of Conv.v and,
+        per host, the resolved values of the observed keys: host-scoped keys of the host,
+        per path the backend-scoped keys of its backend (Mapper.Get) and the per-path
+        keys (GetConfig(link)) ---- *)
+Inductive astep :=
+| AFull (w : aworld)
+| APartial (w : aworld) (b : batch).
+
+(* expected: values of host keys; per path (path, type, backend keys, per-path keys) *)
+Definition aobs := option (list (string * string) * list (string * ptype * list (string * string) * list (string * string))).
+
+Record xcase := { xid : N; xsteps : list (astep * list (string * hobs) * list (string * aobs)) }.
+
+(* the defaults of the controller for the observed keys, and what a path shows for a per-path
+   key when no updater ever configured it (the zero value of the Go field) *)
+Definition adefault (k : string) : string :=
+  if String.eqb k "balance-algorithm" then "roundrobin"
+  else if String.eqb k "hsts-max-age" then "15768000"
+  else "".
+Definition aunapplied (k : string) : string :=
+  if String.eqb k "hsts-max-age" then "0" else "".
+
+Definition lookd (m : amap) (k : string) : string :=
+  match assoc k m with Some v => v | None => adefault k end.
+Definition plookd (m : option amap) (k : string) : string :=
+  match m with Some a => lookd a k | None => aunapplied k end.
+
+Definition kvs_ok (look : string -> string) (exp : list (string * string)) : bool :=
+  forallb (fun kv => String.eqb (look (fst kv)) (snd kv)) exp.
+
+Definition apath_ok (model : list (string * ptype * amap * option amap))
+                    (e : string * ptype * list (string * string) * list (string * string)) : bool :=
+  let '(pe, te, be, le) := e in
+  match find (fun m => let '(pm, tm, _, _) := m in String.eqb pm pe && ptype_eqb tm te) model with
+  | None => false
+  | Some (_, _, bm, lm) => kvs_ok (lookd bm) be && kvs_ok (plookd lm) le
+  end.
+
+Definition aobs_ok (y : ast) (e : string * aobs) : bool :=
+  match obs_ann y (fst e), snd e with
+  | None, None => true
+  | Some (hc, paths), Some (eh, ep) =>
+      kvs_ok (lookd hc) eh && Nat.eqb (List.length paths) (List.length ep) && forallb (apath_ok paths) ep
+  | _, _ => false
+  end.
+
+Fixpoint run_xsteps (y : ast) (l : list (astep * list (string * hobs) * list (string * aobs))) : bool :=
+  match l with
+  | [] => true
+  | (s, exp, aexp) :: r =>
+      match (match s with
+             | AFull w => Some (sync_full_a w)
+             | APartial w b => sync_partial_a w y b
+             end) with
+      | None => false
+      | Some y' => step_ok (fst y') exp && forallb (aobs_ok y') aexp && run_xsteps y' r
+      end
+  end.
+
+Definition xcase_ok (c : xcase) : bool := run_xsteps ((empty_state, []), fun _ => blank) (xsteps c).
+
+Inductive acase := CH (c : ccase) | CT (c : tcase) | CD (c : dcase) | CA (c : xcase).
 
 Definition mismatches (cs : list acase) : list N :=
   flat_map (fun a => match a with
                      | CH c => if ccase_ok c then [] else [cid c]
                      | CT c => if tcase_ok c then [] else [tid c]
                      | CD c => if dcase_ok c then [] else [did c]
+                     | CA c => if xcase_ok c then [] else [xid c]
                      end) cs.
 
 (* diagnostics: index of the first failing step and the hosts that differ there *)
